@@ -255,3 +255,28 @@ Proof.
   destruct (e2e_byte_pcm o L md5 Hmd p rate bps en wo ch total w chunks f Hwf Hnew Hf Hbytes Hfit Hlen) as (blocks & Hd & Hc & _).
   exists f, blocks. auto.
 Qed.
+
+(* C02 for the byte front-end, hypotheses on the input only: the finished file passes the strict stream validator *)
+Theorem byte_writer_file_valid : forall o L md5, (forall l, length (md5 l) = 16%nat) ->
+  forall p rate bps en wo ch total w chunks,
+  options_wf wo ->
+  byte_new p en [] wo rate bps ch total = Ok w ->
+  Forall byte_ok (concat chunks) ->
+  let nb := bytes_per_sample_of bps in
+  let samples := decode_bytes en (N.to_nat nb) (concat chunks) in
+  forallb (FlacCodec.Wf.fits bps) samples = true ->
+  let W := N.of_nat (length samples) / ch in
+  1 <= W -> N.of_nat (length samples) < 2 ^ 36 ->
+  match total with Some T => T = nb * ch * W | None => True end ->
+  exists f blocks,
+    byte_run (encB o L rate bps) md5 p w chunks = Ok f /\
+    FlacCodec.Spec.spec_stream (f_stream f) = Ok (conv_si (f_si f), blocks) /\
+    concat (map FlacCodec.Stream.interleave_frame blocks) =
+      firstn (N.to_nat ch * (length samples / N.to_nat ch)) samples.
+Proof.
+  intros o L md5 Hmd p rate bps en wo ch total w chunks Hwf Hnew Hbytes nb samples Hfit W HW Hlen Htot.
+  destruct (byte_writer_lossless o L md5 Hmd p rate bps en wo ch total w chunks Hwf Hnew Hbytes Hfit HW Hlen Htot) as (f & _ & Hrun & _ & _).
+  destruct (e2e_byte_pcm o L md5 Hmd p rate bps en wo ch total w chunks f Hwf Hnew Hrun Hbytes Hfit Hlen)
+    as (blocks & _ & Hcat & _ & _ & _ & _ & _ & Hspec).
+  exists f, blocks. auto.
+Qed.
